@@ -2,6 +2,7 @@ package mon
 
 import (
 	"fmt"
+	"math/rand/v2"
 
 	"github.com/xjslang/xjs/ast"
 	"github.com/xjslang/xjs/lexer"
@@ -40,7 +41,7 @@ var nestedSources = []string{"function q(){ { x } }", "{ { a } }", "f(function()
 // every nestEvery-th invocation additionally builds a second parser FROM THE SAME BUILDER and runs it to completion on
 // a nesting-heavy snippet while the outer parser is in the middle of its parse (what a macro-expanding plugin does),
 // then records the outer parser's answers again: one builder builds independent parsers, so they must be unchanged.
-func recordContexts(src string, m Mode, nestEvery int) (obs []ctxObs, p *parser.Parser, nested int, err error) {
+func recordContexts(src string, m Mode, nestEvery int, coin *rand.Rand) (obs []ctxObs, p *parser.Parser, nested int, err error) {
 	b := newBuilder(m)
 	depth, calls := 0, 0
 	record := func(kind string, p *parser.Parser) {
@@ -61,10 +62,17 @@ func recordContexts(src string, m Mode, nestEvery int) (obs []ctxObs, p *parser.
 	}
 	b.UseStatementInterceptor(func(p *parser.Parser, next func() ast.Statement) ast.Statement {
 		record("statement", p)
+		if coin != nil && depth == 0 && coin.IntN(3) == 0 {
+			// a plugin that parses the statement itself through the public Parse*Statement API (see dispatchStatement)
+			return dispatchStatement(p)
+		}
 		return next()
 	})
 	b.UseExpressionInterceptor(func(p *parser.Parser, next func() ast.Expression) ast.Expression {
 		record("expression", p)
+		if coin != nil && depth == 0 && coin.IntN(4) == 0 {
+			return p.ParseRemainingExpression(dispatchPrefix(p))
+		}
 		return next()
 	})
 	p = b.Build(src)
@@ -100,7 +108,45 @@ func runC16Program(t *fw.T) {
 	if t.Thorough() && r.IntN(5) == 0 {
 		g.O.StmtDepth = 8
 	}
-	prog := g.Program()
+	checkContexts(t, r, g.Program(), "programs")
+}
+
+// deepChain nests depth brace constructs of random kinds (plain block, function declaration, function expression as a
+// call argument followed by further arguments, if / while with block bodies), with a statement before and after each
+// nested construct, so that queries are made at every depth on the way in and on the way out.
+func deepChain(r *rand.Rand, depth int) *gen.Node {
+	body := []*gen.Node{gen.ExprStmt(gen.Call(gen.Id("leaf")))}
+	for i := 0; i < depth; i++ {
+		var wrap *gen.Node
+		switch r.IntN(6) {
+		case 0:
+			wrap = &gen.Node{K: gen.KBlock, Kids: body}
+		case 1:
+			wrap = &gen.Node{K: gen.KFuncDecl, Name: fmt.Sprintf("f%d", i), Kids: body}
+		case 2:
+			wrap = gen.ExprStmt(gen.Call(gen.Id("g"), &gen.Node{K: gen.KFunc, Kids: body}, gen.Id(fmt.Sprintf("after%d", i))))
+		case 3:
+			wrap = &gen.Node{K: gen.KIf, Kids: []*gen.Node{gen.Id("c"), {K: gen.KBlock, Kids: body}}}
+		case 4:
+			wrap = &gen.Node{K: gen.KWhile, Kids: []*gen.Node{gen.Id("c"), {K: gen.KBlock, Kids: body}}}
+		default:
+			wrap = gen.Let(fmt.Sprintf("v%d", i), &gen.Node{K: gen.KFunc, Name: fmt.Sprintf("n%d", i), Kids: body})
+		}
+		body = []*gen.Node{gen.ExprStmt(gen.Id(fmt.Sprintf("a%d", i))), wrap, gen.ExprStmt(gen.Id(fmt.Sprintf("z%d", i)))}
+	}
+	return gen.Prog(body...)
+}
+
+func runC16Deep(t *fw.T) {
+	r := t.Rand()
+	depth := 8 + r.IntN(120)
+	if t.Thorough() && r.IntN(4) == 0 {
+		depth = 100 + r.IntN(400)
+	}
+	checkContexts(t, r, deepChain(r, depth), "deep-nesting")
+}
+
+func checkContexts(t *fw.T, r *rand.Rand, prog *gen.Node, stratum string) {
 	l := stdLayouts[r.IntN(len(stdLayouts))]
 	rd := gen.Render(prog, r, l.E, l.L)
 	byPos := map[token.Position]*gen.Tok{}
@@ -122,7 +168,12 @@ func runC16Program(t *fw.T) {
 		if r.IntN(2) == 0 {
 			nestEvery = 1 + r.IntN(5)
 		}
-		if !t.Guard("parse with recording interceptors", wit, func() { obs, p, nested, err = recordContexts(rd.Src, m, nestEvery) }) {
+		var coin *rand.Rand
+		if r.IntN(2) == 0 {
+			coin = rand.New(rand.NewPCG(r.Uint64(), 16))
+			t.Count("parses_with_interceptors_that_use_the_public_parse_API", 1)
+		}
+		if !t.Guard("parse with recording interceptors", wit, func() { obs, p, nested, err = recordContexts(rd.Src, m, nestEvery, coin) }) {
 			return
 		}
 		t.Count("nested_parses_by_a_second_parser_of_the_same_builder", nested)
@@ -178,7 +229,7 @@ func runC16Program(t *fw.T) {
 	}
 	t.Distinct(rd.Src)
 	if t.WantSample() && len(rd.Src) < 300 {
-		t.Sample(map[string]any{"stratum": "programs", "source": rd.Src, "max_nesting": maxDepth})
+		t.Sample(map[string]any{"stratum": stratum, "source": rd.Src, "max_nesting": maxDepth})
 	}
 }
 
@@ -226,6 +277,7 @@ func init() {
 		},
 		Strata: []*fw.Stratum{
 			{Name: "programs", Quick: 12000, Thorough: 100000, Run: runC16Program},
+			{Name: "deep-nesting", Quick: 600, Thorough: 6000, Run: runC16Deep},
 			{Name: "malformed-final-state", Quick: 300000, Thorough: 2000000, PanicInconclusive: true, Run: runC16Malformed},
 		},
 	})
